@@ -590,6 +590,11 @@ class Evaluator(object):
     def op_item(self, a, i):
         a = self.ev(a)
         i = self.ev(i)
+        if isinstance(a, (set, frozenset)):
+            # the model has no order for this value (a component, a set of
+            # successors): which member is "number i" is not decided here
+            raise NotEvaluable('member number %r of the unordered %r' % (
+                i, sorted(a, key=repr)[:4]))
         try:
             return a[i]
         except (KeyError, IndexError, TypeError):
